@@ -6,6 +6,13 @@ case     : `stack=tlcp|dtlcp cap=<int> ops=<op>,<op>,...`
              op = `P.<key>.<objid|nil>` | `G.<key>` ; the empty key is written `_`
 observed : `outs=<o>,<o>,... len=<list len>/<map len> wiped=<id>.<id>...|-`
              o  = `U` | `G.<objid|nil>.<ok 0|1>.<wiped 0|1>`
+
+Phase `conn` (histories of real client handshakes through a recording cache):
+case     : `stack=.. cap=<int> hist=<history>` (syntax: harness/internal/resume; every
+             connection is fault-free, so every handshake is expected to succeed)
+observed : `ops=<recorded trace, same op syntax> outs=.. len=.. wiped=.. hs=<ok|fail>,...`
+For these cases the recorded trace is run through the model, and the spec ALSO requires that
+every handshake succeeded and that the client stored one object per `Put` (`freshPuts`).
 -/
 import Gotlcp.Oracle.Common
 import Gotlcp.Model.LRU
@@ -113,17 +120,34 @@ def checkSpec (cap : Int) (ops : List LRU.Op) (obs : List ObsOut) (qlen mlen : N
     | _, _ => some ("shape", "number of results differs")
   go 0 sp obs
 
+/-- extra clauses for connection histories: every (honest) handshake succeeded and the client
+never stored one session object under two keys -/
+def checkConn (ops : List LRU.Op) (hs : String) : Option (String × String) :=
+  let rs := hs.splitOn ","
+  match rs.findIdx? (· != "ok") with
+  | some i =>
+    if hs == "-" then none else
+    some ("honest-handshake-failed", s!"connection {i} of a fault-free history failed ({rs.getD i "?"})")
+  | none =>
+    if !freshPuts [] ops then some ("aliased-put", "the client stored one session object under more than one key / more than once")
+    else none
+
 def judge (c o : String) : Option Verdict := do
   let ct := tokens c
+  let ot0 := tokens o
   let stack ← kv ct "stack"
   let p ← params stack
   let cap ← (kv ct "cap").bind parseInt
-  let ops ← (kv ct "ops").bind parseOps
+  let isConn := (kv ct "hist").isSome
+  let opsStr ← if isConn then kv ot0 "ops" else kv ct "ops"
+  let ops ← parseOps opsStr
   let (s, outs) := runModel p.strict (LRU.init p.defaultCap cap) ops
   let wiped := sortNat (dedup s.zeroed)
   let wstr := if wiped.isEmpty then "-" else ".".intercalate (wiped.map toString)
   let ostr := if outs.isEmpty then "-" else ",".intercalate outs
-  let model := s!"outs={ostr} len={s.q.length}/{s.q.length} wiped={wstr}"
+  let hsStr := (kv ot0 "hs").getD "-"
+  let model := if isConn then s!"ops={opsStr} outs={ostr} len={s.q.length}/{s.q.length} wiped={wstr} hs={hsStr}"
+    else s!"outs={ostr} len={s.q.length}/{s.q.length} wiped={wstr}"
   -- spec on the observation
   let ot := tokens o
   let spec : Option (String × String) :=
@@ -137,6 +161,11 @@ def judge (c o : String) : Option Verdict := do
         | _, _ => some ("shape", "unparseable len")
       | _, _ => some ("shape", "unparseable observation")
     | _, _ => some ("shape", "missing outs/len")
+  let spec := if isConn then
+      (match checkConn ops hsStr with
+       | some f => some f
+       | none => spec)
+    else spec
   let hit := outs.any (fun t => t.startsWith "G." && !t.startsWith "G.nil")
   pure { model := model, spec := spec, trivial := !hit }
 
